@@ -27,11 +27,13 @@ import (
 const T = 59 * time.Second
 
 type Spec struct {
-	Cipher int `json:"cipher"`
-	Conns  int `json:"conns"`
-	Cache  int `json:"cache"`  // -1: nil cache, 0: disabled, >0 capacity
-	Batch  int `json:"batch"`  // seed offset so that batches differ
+	Cipher         int  `json:"cipher"`
+	Conns          int  `json:"conns"`
+	Cache          int  `json:"cache"`                                // -1: nil cache, 0: disabled, >0 capacity
+	Batch          int  `json:"batch"`                                // seed offset so that batches differ
 	Shared128First bool `json:"shared_secret_aes128_first,omitempty"` // the key list starts with an aes-128-gcm key of the SAME secret
+	EmptyID        bool `json:"empty_id,omitempty"`                   // the key's ID is the empty string
+	Between        bool `json:"other_key_between,omitempty"`          // before every reflection the reflecting client IP makes a valid connection under the OTHER key (another cipher, another salt size)
 	RandFailAfter  int  `json:"rand_fail_after,omitempty"`            // the system's random source fails from its n-th read on (connections may then fail, but no salt may repeat)
 }
 
@@ -53,7 +55,11 @@ func build(s Spec) *engine.Scenario {
 		// a secret nothing else in this process has used, so that its first use is the aes-128 key
 		secret = fmt.Sprintf("s@lt-128-first-%d", s.Cipher)
 	}
-	key := world.MakeKey("salt-key", world.Ciphers[s.Cipher], secret)
+	keyID := "salt-key"
+	if s.EmptyID {
+		keyID = ""
+	}
+	key := world.MakeKey(keyID, world.Ciphers[s.Cipher], secret)
 	other := world.MakeKey("other", world.Ciphers[(s.Cipher+2)%4], "0ther")
 	// "recognises as its own for that key": the marking generator of the key's secret, taken
 	// directly (not through MakeCipherEntry, which is part of what is being checked)
@@ -125,6 +131,17 @@ func build(s Spec) *engine.Scenario {
 					variants, names = append(variants, rec[:n]), append(names, fmt.Sprintf("trunc%d", n))
 				}
 				for vi, v := range variants {
+					if s.Between {
+						oc := world.Dial("203.0.113.8:0")
+						oc.Send(world.EncodeStream(other, uint64(s.Batch*100000+5000+ri*1000+vi), world.Addr("93.184.216.34:80"), []byte("ping")), 0)
+						oc.C.CloseWrite()
+						oc.ReadAll()
+						oc.C.Close()
+						vrt.WaitIdle()
+						if st := w.Conns[len(w.Conns)-1].Status(); st != "OK" {
+							statuses = append(statuses, fmt.Sprintf("connection under the other key before reflection %d/%d: %s", ri, vi, st))
+						}
+					}
 					before := countConnects()
 					t0 := vrt.NowQuiet()
 					cl := world.Dial("203.0.113.8:0")
@@ -210,6 +227,10 @@ func specs(tier string) []Spec {
 		}
 		if c != 3 {
 			out = append(out, Spec{Cipher: c, Conns: 5, Cache: -1, Batch: 900 + c, Shared128First: true})
+		}
+		// a key with an empty ID; another key (other salt size) used by the same client IP in between
+		for _, cache := range []int{-1, 100} {
+			out = append(out, Spec{Cipher: c, Conns: 4, Cache: cache, Batch: 960 + c, EmptyID: true}, Spec{Cipher: c, Conns: 4, Cache: cache, Batch: 970 + c, Between: true})
 		}
 		// the entropy source starts failing after a few connections: the server may fail them, but
 		// whatever salts it still sends must not repeat
